@@ -55,3 +55,9 @@ reg("C24", "runtime monitor: differential comparison of both sides of each docum
 reg("C27", "runtime monitor: recording taps at the solver boundary (file text, solver-side clauses/models, decode input, blocking-clause updates) checked by an independent strict DIMACS parser",
     "Real IterateSATGen / CMSGen / UniGen runs on generated designs are observed through proxies on pycryptosat, pycmsgen, pyunigen and on the file-handling functions; plus direct exercises of the renderers/parsers on random CNF objects.",
     "proxies forward unchanged; the DIMACS terminator kept by cryptominisat_solve is recorded, not charged")
+reg("C25", "runtime monitor: statement-derived structural oracle on every sequence of exhausted Nest designs, product-construction and associativity comparisons",
+    "Every sequence the real samplers return for generated Nest designs is cut into groups and judged (outer constancy, outer projection valid, each group valid for the inner block alone); exhausted sets are compared with the explicit product construction and between the two association orders.",
+    "validity of a sub-block alone by the reference model; nests without preamble trials; <= 500 sequences")
+reg("C26", "runtime monitor: exhausted solution sets of three builds (no constraint / constraint on the block / constraint on the combinator) compared through an independent window evaluator",
+    "S1 must equal the sequences of the unconstrained set that satisfy the constraint inside every repetition window, S2 those that satisfy it over the whole sequence; Repeat (with/without preamble), Merge(REPEAT) and Nest.",
+    "the library's unconstrained set is the universe; repetition-window geometry as documented; <= 700 sequences")
